@@ -207,7 +207,7 @@ class SymStr:
         return str(self)
 
     def __getattr__(self, name):
-        if name.startswith("__"):
+        if name.startswith("_"):
             raise AttributeError(name)
         raise Unsupported("str.%s on symbolic string" % name)
 
